@@ -1342,6 +1342,7 @@ def translate_steppers(out_hashes):
 
     generated = []
     inherited = []
+    signatures = {}    # class -> ([(attribute, kind)], result kind): drives the dispatcher below and the harness
     for name, (rel, c, src) in classes.items():
         m = own_method(c)
         if m is None:
@@ -1391,6 +1392,7 @@ def translate_steppers(out_hashes):
         comments += [f"guard (not modelled): raise {g}" for g in tr.guards]
         texts.append(emit_block_def(f"{name}_linear_operator", params, tr, lines, rty, comments))
         generated.append(name)
+        signatures[name] = ([(a, attrs[a]) for a in used_attrs], rty)
     if not generated:
         raise TranslateError(f"no class defines {LINOP}")
     inh = "".join(f"-- {n} inherits {LINOP} from {p}: {p}_linear_operator\n" for n, p in sorted(inherited))
@@ -1403,9 +1405,46 @@ def translate_steppers(out_hashes):
             + f"\n/-- (class, class whose `{LINOP}` it inherits) -/\n"
             + "def inherited_classes : List (String × String) :=\n  ["
             + ", ".join(f"({q(n)}, {q(p_)})" for n, p_ in sorted(inherited)) + "]\n")
+    # ---- dispatcher for the executable driver (numerical validation of this translator against the implementation) ---
+    disp = ["/-- one argument of a regenerated operator, as the driver reads it -/",
+            "inductive Arg (K : Type) where",
+            "  | s (x : K) | v (xs : List K) | m (xs : List (List K)) | b (x : Bool) | n (x : Nat)",
+            "",
+            "/-- evaluate the regenerated `_build_linear_operator` of class `name` at one stored mode (one entry per channel) -/",
+            "def eval_linear_operator {K : Type} [Add K] [Sub K] [Mul K] [Neg K] [Zero K] [One K] [NatCast K] [HasI K]",
+            "    (name : String) (κ : List K) (args : List (Arg K)) : Option (List K) :=",
+            "  match name, args with"]
+    sig_json = {}
+    for name in sorted(generated):
+        plist, rty = signatures[name]
+        pats, call = [], []
+        for i, (a, kind) in enumerate(plist):
+            if kind == "K":
+                pats.append(f".s a{i}"); call.append(f"a{i}")
+            elif kind == "L":
+                pats.append(f".v a{i}"); call.append(f"a{i}")
+            elif kind == "M":
+                pats.append(f".m a{i}"); call.append(f"a{i}")
+            elif kind == "B":
+                pats.append(f".b a{i}"); call.append(f"a{i}")
+            elif kind == "N":
+                pats.append(f".n a{i}"); call.append(f"a{i}")
+            elif isinstance(kind, tuple) and kind[0] == "T":
+                comps = [f"a{i}_{j}" for j in range(kind[1])]
+                pats.append(".v [" + ", ".join(comps) + "]"); call.append("(" + ", ".join(comps) + ")")
+            else:
+                raise TranslateError(f"{name}: parameter {a} of kind {kind} has no driver encoding")
+        app = f"{name}_linear_operator κ " + " ".join(call)
+        res = f"some ({app.strip()})" if rty == "C" else f"some [{app.strip()}]"
+        disp.append(f"  | \"{name}\", [{', '.join(pats)}] => {res}")
+        sig_json[name] = {"params": [[a, (kind if isinstance(kind, str) else f"T{kind[1]}")] for a, kind in plist], "result": rty}
+    disp.append("  | _, _ => none")
+    for n_, p_ in sorted(inherited):
+        sig_json[n_] = {"inherits": p_}
+    write_if_changed(os.path.join(GEN_DIR, "steppers_signatures.json"), json.dumps(sig_json, indent=1, sort_keys=True) + "\n")
     return HEADER.format(src="exponax/_spectral.py, exponax/stepper/**/*.py (_build_linear_operator)",
                          ns="Steppers", hashes="see Generated/hashes.json") + "\n".join(texts) + "\n" + tail \
-        + "\nend Exponax.Gen.Steppers\n"
+        + "\n" + "\n".join(disp) + "\n" + "\nend Exponax.Gen.Steppers\n"
 
 
 TARGETS = {
